@@ -10,14 +10,23 @@
         addressed register" once the write has been answered (unmapped: unchanged),
         or changes a register outside the window of a pending write,
       - answers a read of a mapped register with anything but a value the register held
-        between the acceptance of the address and the response.
+        between the acceptance of the address and the response,
+      - (registers with fields) changes a bit that is not bus-writable: the reference
+        write [ref_write] touches only the bits of the register's write mask, the
+        hardware-driven [Field]/[UField] bits follow the hardware model [hw_tick] only
+        (a counter of write notifications and a toggle of read notifications, each
+        moving in the clock after the pulse, as the wrapper's hardware process does),
+      - (notifications) raises the write / read notification of a register in any clock
+        other than the one in which an access to exactly that register takes effect:
+        one pulse of one clock per access, not before the request is complete, not after
+        the response is visible, together with the register update, never otherwise.
     The master is unconstrained except for the AXI rule "valid and its payload stay until
     ready": when the environment breaks it the monitor stops judging (sink state).
 
     Observation convention (see [Sem.cycle]): inputs of step k are applied before the
     edge, outputs are sampled after it; a handshake happens at edge k when the valid of
     step k meets the ready/valid that was visible before the edge (output of step k-1). *)
-From Coq Require Import ZArith NArith List Bool.
+From Coq Require Import ZArith NArith List Bool Lia.
 From Cohdl Require Import Base.Bits Vhdl.Value Equiv.RefTS Equiv.Monitor.
 Import ListNotations.
 Local Open Scope Z_scope.
@@ -31,6 +40,8 @@ Record axm := {
   aw_got : Z; aw_addr : Z; w_got : Z; w_data : Z; w_strb : Z; b_pend : Z; b_wait : Z; b_seen : Z;
   (* read transaction *)
   r_pend : Z; r_addr : Z; r_wait : Z; r_seen : Z;
+  (* notifications: outputs of the previous clock / already pulsed for the pending access *)
+  p_ntw : Z; p_ntr : Z; nw_done : Z; nr_done : Z;
   (* registers: value before the pending write / value it must have afterwards *)
   regs_old : list Z; regs_new : list Z; r_cand : list Z;
   sink : Z
@@ -41,12 +52,13 @@ Definition enc (n : nat) (m : axm) : list Z :=
   [m.(p_awready); m.(p_wready); m.(p_bvalid); m.(p_bresp); m.(p_arready); m.(p_rvalid); m.(p_rdata); m.(p_rresp);
    m.(h_aw); m.(h_awaddr); m.(h_w); m.(h_wdata); m.(h_wstrb); m.(h_ar); m.(h_araddr);
    m.(aw_got); m.(aw_addr); m.(w_got); m.(w_data); m.(w_strb); m.(b_pend); m.(b_wait); m.(b_seen);
-   m.(r_pend); m.(r_addr); m.(r_wait); m.(r_seen); m.(sink)]
+   m.(r_pend); m.(r_addr); m.(r_wait); m.(r_seen); m.(sink);
+   m.(p_ntw); m.(p_ntr); m.(nw_done); m.(nr_done)]
   ++ m.(regs_old) ++ m.(regs_new) ++ m.(r_cand).
 
 Definition dec (n : nat) (l : list Z) : axm :=
   let g k := nth k l 0 in
-  let rest := skipn 28 l in
+  let rest := skipn 32 l in
   {| p_awready := g 0%nat; p_wready := g 1%nat; p_bvalid := g 2%nat; p_bresp := g 3%nat; p_arready := g 4%nat;
      p_rvalid := g 5%nat; p_rdata := g 6%nat; p_rresp := g 7%nat;
      h_aw := g 8%nat; h_awaddr := g 9%nat; h_w := g 10%nat; h_wdata := g 11%nat; h_wstrb := g 12%nat;
@@ -54,16 +66,25 @@ Definition dec (n : nat) (l : list Z) : axm :=
      aw_got := g 15%nat; aw_addr := g 16%nat; w_got := g 17%nat; w_data := g 18%nat; w_strb := g 19%nat;
      b_pend := g 20%nat; b_wait := g 21%nat; b_seen := g 22%nat;
      r_pend := g 23%nat; r_addr := g 24%nat; r_wait := g 25%nat; r_seen := g 26%nat; sink := g 27%nat;
+     p_ntw := g 28%nat; p_ntr := g 29%nat; nw_done := g 30%nat; nr_done := g 31%nat;
      regs_old := firstn n rest; regs_new := firstn n (skipn n rest); r_cand := skipn (n + n) rest |}.
+
+(** ** the reference data model *)
 
 (** byte-strobed merge of a 32-bit word *)
 Definition byte_mask (strb : Z) : Z :=
   (if Z.testbit strb 0 then 255 else 0) + (if Z.testbit strb 1 then 65280 else 0)
   + (if Z.testbit strb 2 then 16711680 else 0) + (if Z.testbit strb 3 then 4278190080 else 0).
 
-Definition strobe_merge (old data strb : Z) : Z :=
-  let m := byte_mask strb in
-  Z.lor (Z.land old (4294967295 - m)) (Z.land data m).
+(** bits of [old] replaced by bits of [data] where the byte is strobed AND the bit is
+    bus-writable ([wmask]: the MemField bits of the register; all ones for a MemWord) *)
+Definition merge_masked (old data strb wmask : Z) : Z :=
+  let m := Z.land (byte_mask strb) wmask in
+  Z.lor (Z.ldiff old m) (Z.land data m).
+
+Definition all32 : Z := 4294967295.
+
+Definition strobe_merge (old data strb : Z) : Z := merge_masked old data strb all32.
 
 Fixpoint set_nthz (l : list Z) (k : nat) (x : Z) : list Z :=
   match l, k with
@@ -72,7 +93,7 @@ Fixpoint set_nthz (l : list Z) (k : nat) (x : Z) : list Z :=
   | y :: r, S k' => y :: set_nthz r k' x
   end.
 
-(** [map_of addr] = index of the register mapped at byte address [addr], if any
+(** [reg_at offsets addr 0] = index of the register mapped at byte address [addr], if any
     (word-aligned map: register i at byte offset [nth i offsets]) *)
 Fixpoint reg_at (offsets : list Z) (addr : Z) (k : nat) : option nat :=
   match offsets with
@@ -80,18 +101,61 @@ Fixpoint reg_at (offsets : list Z) (addr : Z) (k : nat) : option nat :=
   | o :: r => if (addr / 4) =? (o / 4) then Some k else reg_at r addr (S k)
   end.
 
+(** the registers after a completed bus write *)
+Definition ref_write (offsets wmasks regs : list Z) (addr data strb : Z) : list Z :=
+  match reg_at offsets addr O with
+  | Some k => set_nthz regs k (merge_masked (nth k regs 0) data strb (nth k wmasks all32))
+  | None => regs
+  end.
+
+(** the register a bus read returns ([None]: unmapped, the monitor does not judge the data) *)
+Definition ref_read (offsets regs : list Z) (addr : Z) : option Z :=
+  match reg_at offsets addr O with
+  | Some k => Some (nth k regs 0)
+  | None => None
+  end.
+
+(** ** hardware side of a register with notifications (mirrors the wrapper's process:
+       [if wr_n: cnt <<= cnt + 1]  [if rd_n: tog <<= ~tog]) *)
+Record nspec := { n_reg : nat; n_wshift : Z; n_wwidth : Z; n_rshift : Z }.
+
+Definition field_mask (shift width : Z) : Z := Z.shiftl (Z.ones width) shift.
+
+Definition cnt_tick (v shift width : Z) : Z :=
+  Z.lor (Z.ldiff v (field_mask shift width)) (Z.shiftl ((Z.shiftr v shift + 1) mod 2 ^ width) shift).
+
+Definition tog_tick (v shift : Z) : Z := Z.lxor v (Z.shiftl 1 shift).
+
+Definition hw_tick (nf : option nspec) (tw tr : bool) (regs : list Z) : list Z :=
+  match nf with
+  | None => regs
+  | Some s =>
+      let v := nth s.(n_reg) regs 0 in
+      let v1 := if tw then cnt_tick v s.(n_wshift) s.(n_wwidth) else v in
+      let v2 := if tr then tog_tick v1 s.(n_rshift) else v1 in
+      if tw || tr then set_nthz regs s.(n_reg) v2 else regs
+  end.
+
 Definition zlist_eqb := zl_eqb.
 Definition inb (x : Z) (l : list Z) : bool := existsb (Z.eqb x) l.
+Definition is_reg (offsets : list Z) (addr : Z) (nf : option nspec) : bool :=
+  match nf, reg_at offsets addr O with
+  | Some s, Some k => Nat.eqb k s.(n_reg)
+  | _, _ => false
+  end.
 
 (** inputs  : [awaddr; awprot; awvalid; wdata; wstrb; wvalid; bready; araddr; arprot; arvalid; rready]
-    outputs : [awready; wready; bresp; bvalid; arready; rdata; rresp; rvalid; reg_0 .. reg_(n-1)] *)
-Definition axi_monitor (K : Z) (offsets : list Z) : monitor := fun st inp outs =>
+    outputs : [awready; wready; bresp; bvalid; arready; rdata; rresp; rvalid; reg_0 .. reg_(n-1)]
+              followed by [write notification; read notification] when [nf] is given *)
+Definition axi_monitor_x (K : Z) (offsets wmasks : list Z) (nf : option nspec) : monitor := fun st inp outs =>
   let n := length offsets in
   let m := dec n st in
   match inp, outs with
   | [awaddr; _; awvalid; wdata; wstrb; wvalid; bready; araddr; _; arvalid; rready],
-    awready :: wready :: bresp :: bvalid :: arready :: rdata :: rresp :: rvalid :: regs =>
+    awready :: wready :: bresp :: bvalid :: arready :: rdata :: rresp :: rvalid :: rest =>
       if m.(sink) =? 1 then (st, true) else
+      let regs := firstn n rest in
+      let nts := skipn n rest in
       let awv := zb (vbit awvalid) in let wv := zb (vbit wvalid) in let arv := zb (vbit arvalid) in
       let brd := vbit bready in let rrd := vbit rready in
       let awa := vnum awaddr in let wd := vnum wdata in let ws := vnum wstrb in let ara := vnum araddr in
@@ -105,6 +169,7 @@ Definition axi_monitor (K : Z) (offsets : list Z) : monitor := fun st inp outs =
                                     h_wdata := 0; h_wstrb := 0; h_ar := 0; h_araddr := 0; aw_got := 0; aw_addr := 0;
                                     w_got := 0; w_data := 0; w_strb := 0; b_pend := 0; b_wait := 0; b_seen := 0;
                                     r_pend := 0; r_addr := 0; r_wait := 0; r_seen := 0;
+                                    p_ntw := 0; p_ntr := 0; nw_done := 0; nr_done := 0;
                                     regs_old := map (fun _ => 0) offsets; regs_new := map (fun _ => 0) offsets;
                                     r_cand := []; sink := 1 |}, true)
       else
@@ -114,6 +179,10 @@ Definition axi_monitor (K : Z) (offsets : list Z) : monitor := fun st inp outs =
       let hs_ar := (arv =? 1) && (m.(p_arready) =? 1) in
       let hs_b := (m.(p_bvalid) =? 1) && brd in
       let hs_r := (m.(p_rvalid) =? 1) && rrd in
+      (* hardware side: the notification pulses of the previous clock move the hardware fields now *)
+      let tick := hw_tick nf (m.(p_ntw) =? 1) (m.(p_ntr) =? 1) in
+      let m_regs_new := tick m.(regs_new) in
+      let m_regs_old := tick m.(regs_old) in
       (* --- write side --- *)
       let bad_accept_w := (hs_aw && ((m.(aw_got) =? 1) || (m.(b_pend) =? 1)))
                           || (hs_w && ((m.(w_got) =? 1) || (m.(b_pend) =? 1))) in
@@ -123,13 +192,7 @@ Definition axi_monitor (K : Z) (offsets : list Z) : monitor := fun st inp outs =
       let w_data1 := if hs_w then wd else m.(w_data) in
       let w_strb1 := if hs_w then ws else m.(w_strb) in
       let complete := (aw_got1 =? 1) && (w_got1 =? 1) in
-      let regs_new1 :=
-        if complete then
-          match reg_at offsets aw_addr1 O with
-          | Some k => set_nthz m.(regs_new) k (strobe_merge (nth k m.(regs_new) 0) w_data1 w_strb1)
-          | None => m.(regs_new)
-          end
-        else m.(regs_new) in
+      let regs_new1 := if complete then ref_write offsets wmasks m_regs_new aw_addr1 w_data1 w_strb1 else m_regs_new in
       let b_pend1 := if complete then 1 else if hs_b then 0 else m.(b_pend) in
       (* response channel *)
       let bv := zb (vbit bvalid) in
@@ -141,12 +204,13 @@ Definition axi_monitor (K : Z) (offsets : list Z) : monitor := fun st inp outs =
       (* registers: outside a pending write they equal the model; during it old or new;
          once the response is visible they are new *)
       let regsv := map vnum regs in
+      let regs_old1 := if (b_pend1 =? 1) then (if complete then m_regs_new else m_regs_old) else regs_new1 in
+      let is_new := zlist_eqb regsv regs_new1 in
       let regs_ok :=
         if b_pend1 =? 1 then
-          if b_seen1 =? 1 then zlist_eqb regsv regs_new1
-          else zlist_eqb regsv regs_new1 || zlist_eqb regsv m.(regs_old)
-        else zlist_eqb regsv regs_new1 in
-      let regs_old1 := if (b_pend1 =? 1) then (if complete then m.(regs_new) else m.(regs_old)) else regs_new1 in
+          if b_seen1 =? 1 then is_new
+          else is_new || zlist_eqb regsv regs_old1
+        else is_new in
       (* --- read side --- *)
       let bad_accept_r := hs_ar && (m.(r_pend) =? 1) in
       let r_pend1 := if hs_ar then 1 else if hs_r then 0 else m.(r_pend) in
@@ -158,7 +222,7 @@ Definition axi_monitor (K : Z) (offsets : list Z) : monitor := fun st inp outs =
       let r_unasked_hs := hs_r && (m.(r_pend) =? 0) in
       (* values the addressed register held since the address was accepted *)
       let cur := match reg_at offsets r_addr1 O with
-                 | Some k => [nth k m.(regs_old) 0; nth k regs_new1 0; nth k regsv 0]
+                 | Some k => [nth k m.(regs_old) 0; nth k m.(regs_new) 0; nth k regs_old1 0; nth k regs_new1 0; nth k regsv 0]
                  | None => [] end in
       let r_cand1 := if hs_ar then cur else if r_pend1 =? 1 then (if m.(r_seen) =? 1 then m.(r_cand) else cur ++ m.(r_cand)) else [] in
       let r_first := (rv =? 1) && (m.(r_seen) =? 0) && (r_pend1 =? 1) in
@@ -167,10 +231,33 @@ Definition axi_monitor (K : Z) (offsets : list Z) : monitor := fun st inp outs =
                                    | None => false end in
       let r_seen1 := if hs_ar then rv else if hs_r then 0 else if rv =? 1 then 1 else m.(r_seen) in
       let r_wait1 := if (r_pend1 =? 1) && (r_seen1 =? 0) then m.(r_wait) + 1 else 0 in
+      (* --- notifications --- *)
+      let nts_ok := match nf with None => true | Some _ => Nat.eqb (length nts) 2 end in
+      let ntw := match nf with Some _ => zb (vbit (nth 0 nts (VL false))) | None => 0 end in
+      let ntr := match nf with Some _ => zb (vbit (nth 1 nts (VL false))) | None => 0 end in
+      let w_target := (b_pend1 =? 1) && is_reg offsets aw_addr1 nf in
+      let nw_cur := if complete then 0 else m.(nw_done) in
+      let nw_bad :=
+        (* a pulse outside the window of an access to this register, or a second one *)
+        ((ntw =? 1) && negb (w_target && (nw_cur =? 0)))
+        (* the pulse comes with the update *)
+        || ((ntw =? 1) && negb is_new)
+        (* the update without the pulse *)
+        || (w_target && (nw_cur =? 0) && (ntw =? 0) && is_new && negb (zlist_eqb regs_new1 regs_old1))
+        (* the response is visible and the pulse has not happened *)
+        || (w_target && (nw_cur =? 0) && (ntw =? 0) && (b_seen1 =? 1)) in
+      let nw_done1 := if b_pend1 =? 1 then (if ntw =? 1 then 1 else nw_cur) else 0 in
+      let r_target := (r_pend1 =? 1) && is_reg offsets r_addr1 nf in
+      let nr_cur := if hs_ar then 0 else m.(nr_done) in
+      let nr_bad :=
+        ((ntr =? 1) && negb (r_target && (nr_cur =? 0) && ((r_seen1 =? 0) || r_first)))
+        || (r_target && (nr_cur =? 0) && (ntr =? 0) && (r_seen1 =? 1)) in
+      let nr_done1 := if r_pend1 =? 1 then (if ntr =? 1 then 1 else nr_cur) else 0 in
       let ok := negb bad_accept_w && negb b_withdrawn && negb b_spurious && negb b_unasked_hs && (b_wait1 <=? K)
                 && regs_ok
                 && negb bad_accept_r && negb r_withdrawn && negb r_spurious && negb r_unasked_hs && negb r_data_bad
-                && (r_wait1 <=? K) in
+                && (r_wait1 <=? K)
+                && nts_ok && negb nw_bad && negb nr_bad in
       let m' := {|
         p_awready := zb (vbit awready); p_wready := zb (vbit wready); p_bvalid := bv; p_bresp := vnum bresp;
         p_arready := zb (vbit arready); p_rvalid := rv; p_rdata := vnum rdata; p_rresp := vnum rresp;
@@ -181,11 +268,15 @@ Definition axi_monitor (K : Z) (offsets : list Z) : monitor := fun st inp outs =
         w_got := if complete then 0 else w_got1; w_data := w_data1; w_strb := w_strb1;
         b_pend := b_pend1; b_wait := b_wait1; b_seen := if b_pend1 =? 1 then b_seen1 else 0;
         r_pend := r_pend1; r_addr := r_addr1; r_wait := r_wait1; r_seen := if r_pend1 =? 1 then r_seen1 else 0;
+        p_ntw := ntw; p_ntr := ntr; nw_done := nw_done1; nr_done := nr_done1;
         regs_old := regs_old1; regs_new := regs_new1; r_cand := if r_pend1 =? 1 then r_cand1 else [];
         sink := 0 |} in
       (enc n m', ok)
   | _, _ => (st, false)
   end.
+
+(** plain register words (MemWord): every bit bus-writable, no notifications *)
+Definition axi_monitor (K : Z) (offsets : list Z) : monitor := axi_monitor_x K offsets [] None.
 
 (** initial monitor state for registers with the given power-up values *)
 Definition axi_m0 (defaults : list Z) : list Z :=
@@ -194,8 +285,5 @@ Definition axi_m0 (defaults : list Z) : list Z :=
          p_rresp := 0; h_aw := 0; h_awaddr := 0; h_w := 0; h_wdata := 0; h_wstrb := 0; h_ar := 0; h_araddr := 0;
          aw_got := 0; aw_addr := 0; w_got := 0; w_data := 0; w_strb := 0; b_pend := 0; b_wait := 0; b_seen := 0;
          r_pend := 0; r_addr := 0; r_wait := 0; r_seen := 0;
+         p_ntw := 0; p_ntr := 0; nw_done := 0; nr_done := 0;
          regs_old := defaults; regs_new := defaults; r_cand := []; sink := 0 |}.
-
-(** the strobe merge changes exactly the strobed bytes *)
-Lemma byte_mask_range strb : 0 <= byte_mask strb <= 4294967295.
-Proof. unfold byte_mask. destruct (Z.testbit strb 0), (Z.testbit strb 1), (Z.testbit strb 2), (Z.testbit strb 3); cbn; split; discriminate. Qed.
